@@ -112,6 +112,7 @@ pub struct Gen {
     avoid: Option<String>,
     /// names that exist somewhere in the program but are not visible everywhere
     all_names: Vec<(String, Ty)>,
+    all_fns: Vec<Var>,
 }
 
 const ASCII_WORDS: &[&str] = &[
@@ -139,6 +140,7 @@ impl Gen {
             pending_params: Vec::new(),
             avoid: None,
             all_names: Vec::new(),
+            all_fns: Vec::new(),
         }
     }
 
@@ -176,6 +178,8 @@ impl Gen {
     fn declare(&mut self, v: Var) {
         if !matches!(v.ty, Ty::Fn(..)) {
             self.all_names.push((v.name.clone(), v.ty.clone()));
+        } else {
+            self.all_fns.push(v.clone());
         }
         self.cur().scopes.last_mut().unwrap().vars.push(v);
     }
@@ -383,8 +387,9 @@ impl Gen {
         if self.mult > 30 {
             return None;
         }
-        let cands: Vec<Var> = self
-            .visible()
+        let stray = self.cfg.stray_rate > 0.0 && self.chance(self.cfg.stray_rate * 2.0);
+        let pool = if stray { self.all_fns.clone() } else { self.visible() };
+        let cands: Vec<Var> = pool
             .into_iter()
             .filter(|v| matches!(&v.ty, Ty::Fn(_, r) if **r == *ret) && !self.fuel_fns.contains(&v.name))
             .collect();
@@ -392,7 +397,7 @@ impl Gen {
         if let Ty::Fn(ps, _) = &f.ty {
             let d = depth.saturating_sub(1);
             let mut args: Vec<Expr> = ps.iter().map(|p| self.expr(p, d)).collect();
-            if self.fuel_names.contains(&f.name) {
+            if self.fuel_names.contains(&f.name) && !args.is_empty() && ps[0] == Ty::Int {
                 args[0] = Expr::Int(self.rng.gen_range(0..6));
             }
             return Some(Expr::Call {
@@ -839,7 +844,11 @@ impl Gen {
         } else {
             self.pick_scalar_ty()
         };
-        let name = self.fresh("f");
+        let name = if self.cfg.name_pool && self.chance(0.5) {
+            ["hulp", "stap", "g", "h", "doe"][self.rng.gen_range(0..5)].to_string()
+        } else {
+            self.fresh("f")
+        };
         let fty = Ty::Fn(ps.clone(), Box::new(ret.clone()));
         let named = self.chance(0.6);
         if named {
@@ -1182,7 +1191,9 @@ impl Gen {
             } else if depth > 0 && self.ctxs.len() < 3 && pick(self.cfg.func_rate * 0.5) {
                 // functions are defined at the top scope of the program or of a function body:
                 // a function defined in an inner block could outlive the block's variables (U6)
-                if self.cur().scopes.len() <= 2 && (self.in_function() || self.cur().scopes.len() == 1) {
+                if self.cfg.name_pool
+                    || (self.cur().scopes.len() <= 2 && (self.in_function() || self.cur().scopes.len() == 1))
+                {
                     self.define_function(out);
                 } else {
                     self.let_stmt(out);
